@@ -37,6 +37,9 @@ precedence = {
 }
 
 
+_comparison_operators = {"in", "not in", "is", "is not", "<", "<=", ">", ">=", "!=", "=="}
+
+
 class Node(namedtuple("Node", ["value", "precedence", "children"])):
     def __invert__(self):
         return UnaryOperator("~", self)
@@ -130,6 +133,8 @@ class BinaryOperator(Node):
     def lhs_needs_parens(self, lhs):
         """Whether *lhs* must be parenthesized as left operand of this operator."""
         if self.value == "**":  # right-associative
+            return self.precedence >= lhs.precedence
+        if self.value in _comparison_operators:  # 'a < b < c' would be a chain
             return self.precedence >= lhs.precedence
         return self.precedence > lhs.precedence
 
